@@ -312,6 +312,10 @@ func EnsureInterface(in interface{}, err error) (interface{}, error) {
 		return in, err
 	}
 	if v, ok := in.(reflect.Value); ok {
+		// the reference table holds a map by pointer: a back-reference to a map is the map, not the pointer
+		if v.Kind() == reflect.Ptr && !v.IsNil() && v.Elem().Kind() == reflect.Map {
+			v = v.Elem()
+		}
 		in = v.Interface()
 	}
 	if v, ok := in.(*_refHolder); ok {
